@@ -354,7 +354,8 @@ def _summary_units(F):
         for mod in F.model.modules.values():
             f = mod.funcs.get(name)
             if f is not None:
-                out |= {c.callee.name for c in F.calls_from(f) if c.callee.is_kernel}
+                # (a scalar-only helper is a pure expression: it is walked inline like any other extracted sub-expression)
+                out |= {c.callee.name for c in F.calls_from(f) if c.callee.is_kernel and any(t.is_array or t.kind == "bytes" for t in c.callee.ptypes.values())}
     return out
 
 
@@ -1456,8 +1457,8 @@ def rule_findbase_post(ctx):
                 resid_funcs.add(c.callee.name)
     rets = [n for n in walk_no_nested(fb.node) if isinstance(n, ast.Return)]
     guards = []
-    for n in fb.body():
-        if isinstance(n, ast.If) and any(isinstance(s, ast.Raise) for s in n.body):
+    for n in [x for x in walk_no_nested(fb.node) if isinstance(x, ast.If)]:
+        if any(isinstance(s, ast.Raise) for s in n.body):
             exc = [s for s in n.body if isinstance(s, ast.Raise)][0].exc
             en = dotted(exc.func) if isinstance(exc, ast.Call) else dotted(exc)
             t = resolve_temps(fb.node, n.test, allow_subscript=True, pure_only=False, in_loops=False, loose=True)
